@@ -110,6 +110,9 @@ def plan(ctx):
       for seed in range(1, 9):
         jobs.append((g, 'good', 'good', 0, 2 ** 20, seed))
       jobs.append((g, 'good', 'good', 0, 2 ** 22, 77))
+    # the upper end of the documented range: other block lengths of Universal, truncation in the scattered linear complexity
+    jobs.append(('shake128', 'good', 'good', 0, 2 ** 24, 3))
+    jobs.append(('pcg64', 'good', 'good', 0, 2 ** 23, 4))
     for name, fam, rb in WEAK:
       for seed in (1, 2, 3):
         for n in ([2 ** 16, 2 ** 18] if fam == 'lcg' else [2 ** 16, 2 ** 18, 2 ** 22]):
